@@ -137,6 +137,8 @@ pub fn farm_shard(
     wcfg.emergency_unlock_penalty = [cosmwasm_std::Decimal::percent(10), cosmwasm_std::Decimal::percent(2), cosmwasm_std::Decimal::percent(50), cosmwasm_std::Decimal::percent(100)][shard % 4];
     wcfg.farm_fee = [cosmwasm_std::coin(1_000, "uom"), cosmwasm_std::coin(0, "uom"), cosmwasm_std::coin(500, "uusdt")][shard % 3].clone();
     wcfg.subsec_nanos = [0, 123_456_789, 999_999_999, 1][(shard + 1) % 4];
+    // epochs need not be whole days (the epoch manager only demands at least one day)
+    wcfg.epoch_duration = [86_400, 86_400, 129_600, 100_003, 604_800][shard % 5];
     tune(&mut gen, &mut wcfg);
     let mut w = World::new(wcfg);
     set_ctx(format!("workload=W-farm seed={} shard={} (generator seed {})", cfg.seed, shard, seed));
